@@ -141,7 +141,6 @@ func installCopy(vm *otto.Otto) {
 func copyHook(o *otto.Otto, kind otto.VerifStepKind, node interface{}) {
 	if msActive() {
 		msYield(int(kind))
-		return
 	}
 	c := crts[o]
 	if c == nil {
